@@ -1293,6 +1293,92 @@ pub fn run(tier: &str) -> i32 {
     totals[C_PERFORMED] += c[0];
   }
 
+  // ------------------------------------------------------------ display registers, then a whole frame
+  // The pixel pipeline indexes video RAM, OAM and its line buffers with values the guest
+  // controls through several registers at once (LCDC selects maps and addressing, SCY/SCX
+  // choose the map row and column, WY/WX the window, OAM bytes the object rows), and it runs
+  // when time passes, not when the register is written.  Every LCDC value is combined with
+  // boundary values of the scroll and window registers over three extreme video RAM / OAM
+  // contents, and a whole frame plus one line elapses.
+  {
+    const SCY: [u8; 4] = [0x00, 0x80, 0xF8, 0xFF];
+    const SCX: [u8; 4] = [0x00, 0x07, 0x60, 0xFF];
+    const WX: [u8; 4] = [0x00, 0x07, 0xA6, 0xFF];
+    const WY: [u8; 3] = [0x00, 0x8F, 0xFF];
+    const FILLS: [&str; 3] = ["all-00", "all-FF", "pattern+extreme-objects"];
+    let header = header_bytes(0x13, 0x01, 0x03);
+    let path = write_sparse_rom_file(4 * 0x4000, &[(0x100, &header[0x100..0x150])]);
+    let n = (256 * FILLS.len()) as u64;
+    let opts = PoolOpts { chunk: 1, bitmap_bits: 1 << 12, samples_per_child: 1, ..PoolOpts::default() };
+    let p2 = path.clone();
+    let r = run_pool(
+      n,
+      &opts,
+      |_| (),
+      |_, case, ctx: &mut Ctx| {
+        let mut core_box = load_like_main(&p2).expect("context image loads");
+        let core = &mut core_box;
+        let lcdc = (case % 256) as u8;
+        let fill = (case / 256) as usize;
+        ctx.sample(|| J::obj().set("stage", J::s("display-registers-then-a-frame")).set("lcdc", J::s(format!("{:02X}", lcdc))).set("content", J::s(FILLS[fill])).set("grid", J::s("SCY {00,80,F8,FF} x SCX {00,07,60,FF} x WX {00,07,A6,FF} x WY {00,8F,FF}; 70 224 + 456 clocks in batches of 456")));
+        let m = &mut core.memory as *mut MemoryAreas;
+        // contents are written once, with the display off (they live outside the device block)
+        core.memory.io = crate::devices::io::IO::new();
+        core.memory.oam_dma = None;
+        for a in 0x8000u16..0xA000 {
+          let v = match fill { 0 => 0x00, 1 => 0xFF, _ => if a >= 0x9800 { if a & 0x20 != 0 { 0x80 } else { 0x7F ^ (a as u8) } } else { (a as u8).wrapping_mul(7).wrapping_add(3) } };
+          memory_write_byte(m, a, v);
+        }
+        const OY: [u8; 9] = [0, 1, 8, 15, 16, 152, 159, 160, 255];
+        const OX: [u8; 8] = [0, 1, 7, 8, 160, 167, 168, 255];
+        for i in 0..40u16 {
+          let o: [u8; 4] = match fill {
+            0 => [0, 0, 0, 0],
+            1 => [0xFF, 0xFF, 0xFF, 0xFF],
+            _ => [OY[i as usize % 9], OX[i as usize % 8], if i & 1 == 0 { 0xFF } else { 0xFE }, (i as u8).wrapping_mul(0x30) | 0x0F],
+          };
+          for k in 0..4u16 {
+            memory_write_byte(m, 0xFE00 + i * 4 + k, o[k as usize]);
+          }
+        }
+        for scy in SCY {
+          for scx in SCX {
+            for wx in WX {
+              for wy in WY {
+                core.memory.io = crate::devices::io::IO::new();
+                core.memory.oam_dma = None;
+                memory_write_byte(m, 0xFF42, scy);
+                memory_write_byte(m, 0xFF43, scx);
+                memory_write_byte(m, 0xFF4A, wy);
+                memory_write_byte(m, 0xFF4B, wx);
+                memory_write_byte(m, 0xFF47, 0xE4);
+                memory_write_byte(m, 0xFF48, 0x1B);
+                memory_write_byte(m, 0xFF49, 0xFF);
+                memory_write_byte(m, 0xFF40, lcdc);
+                for _ in 0..155 {
+                  core.memory.run_clock_cycles(crate::timing::ClockCycles(456));
+                }
+                ctx.count(0, 8);
+              }
+            }
+          }
+        }
+        ctx.class(0x8000 | case);
+      },
+      |case, how| {
+        let lcdc = (case % 256) as u8;
+        let fill = (case / 256) as usize;
+        (
+          format!("C11 cfg=display-registers-then-a-frame content={} access=time region=io kind={}", FILLS[fill], how),
+          J::obj().set("case", J::obj().set("lcdc", J::s(format!("{:02X}", lcdc))).set("content", J::s(FILLS[fill])).set("what", J::s("video RAM and OAM filled through the bus with the display off; for SCY {00,80,F8,FF} x SCX {00,07,60,FF} x WX {00,07,A6,FF} x WY {00,8F,FF}: SCY, SCX, WY, WX, palettes and this LCDC value written, then 155 x 456 clocks"))),
+        )
+      },
+    );
+    let _ = std::fs::remove_file(&path);
+    let c = rep.add_stage("display-registers-then-a-frame", "every LCDC value x SCY {00,80,F8,FF} x SCX {00,07,60,FF} x WX {00,07,A6,FF} x WY {00,8F,FF} x 3 video RAM / OAM contents (all 00, all FF, a pattern with tile indices 80/7F.. and 40 objects on the screen edges), written through the bus, then a whole frame and a line of time (155 x 456 clocks)", r);
+    totals[C_PERFORMED] += c[0];
+  }
+
   // ------------------------------------------------------------ files the loader may accept
   // "every ... size that a loadable ROM file can declare": the file itself is part of the
   // configuration.  Files shorter than what their header declares are offered to the real
